@@ -1005,15 +1005,24 @@ pub fn check_concurrent_attach(case: &ConcAttachCase) -> CaseResult {
     let got: Arc<Mutex<Vec<(u8, Id)>>> = Arc::new(Mutex::new(vec![]));
     let nt = 2 + (case.threads % 3) as usize;
     let barrier = std::sync::Barrier::new(nt);
+    // a barrier releases its waiters microseconds apart; the spin rendezvous behind it lines the
+    // attach calls up far more closely
+    let arrived = std::sync::atomic::AtomicUsize::new(0);
     let handles: Vec<Option<AttachHandle>> = std::thread::scope(|s| {
         let hs: Vec<_> = (0..nt)
             .map(|t| {
                 let got = got.clone();
                 let barrier = &barrier;
+                let arrived = &arrived;
                 let jit = case.jitter.get(t).copied().unwrap_or(0);
                 s.spawn(move || {
                     let sink = BoxEntrySink::new(Collector { tag: t as u8, got });
                     barrier.wait();
+                    arrived.fetch_add(1, std::sync::atomic::Ordering::SeqCst);
+                    let t0 = std::time::Instant::now();
+                    while arrived.load(std::sync::atomic::Ordering::SeqCst) < nt && t0.elapsed() < std::time::Duration::from_millis(200) {
+                        std::hint::spin_loop();
+                    }
                     crate::bq::jitter(jit);
                     catch_unwind(AssertUnwindSafe(|| <G0 as AttachGlobalEntrySink>::attach((sink, ())))).ok()
                 })
@@ -1134,10 +1143,10 @@ pub fn run(ctx: &mut Ctx) {
         SubCfg::new(
             "c17-concurrent-attach",
             "2-4 threads released together by a barrier each call attach() on the unattached global. Oracle: exactly one call succeeds, the others panic; 0-20 appends all reach the winner's sink; after its handle is dropped the global is unattached. Non-trivial = every case",
-            if q { 1_500 } else { 30_000 },
+            if q { 20_000 } else { 300_000 },
         )
         .shrink_iters(20),
-        || (any::<u8>(), prop::collection::vec(any::<u8>(), 0..4), 0u8..20).prop_map(|(threads, jitter, appends)| ConcAttachCase { threads, jitter, appends }),
+        || (any::<u8>(), prop::collection::vec(prop_oneof![3 => 0u8..4, 1 => any::<u8>()], 0..4), 0u8..20).prop_map(|(threads, jitter, appends)| ConcAttachCase { threads, jitter, appends }),
         check_concurrent_attach,
     );
     if ctx.replay.is_none() {
